@@ -101,6 +101,12 @@ impl<T> Qcow2IoBuf<T> {
 
         assert!(size != 0);
 
+        // verification hook: make "forgot to fill the buffer" deterministic
+        #[cfg(feature = "verif-hooks")]
+        unsafe {
+            std::ptr::write_bytes(ptr as *mut u8, crate::verif::POISON, size);
+        }
+
         Qcow2IoBuf { ptr, size }
     }
 
